@@ -26,6 +26,7 @@
 #include <yaclib_std/chrono>
 #include <yaclib_std/condition_variable>
 #include <yaclib_std/mutex>
+#include <yaclib_std/random>
 
 #include <spawn.h>
 #include <vector>
@@ -116,6 +117,10 @@ void P2(Log& log, int /*phase*/, u64 v) {
 void P3(Log& log, int /*phase*/, u64 v) {
   yaclib_std::atomic<int> a{0};
   yaclib_std::atomic<int> fails{0};
+  {
+    int e0 = 0;
+    log.Ev(a.compare_exchange_weak(e0, 0) ? 1U : 0U);  // the very first operation of the program may fail spuriously
+  }
   std::vector<yaclib_std::thread> ts;
   for (int i = 0; i < 3; ++i) {
     ts.emplace_back([&, i] {
@@ -133,6 +138,19 @@ void P3(Log& log, int /*phase*/, u64 v) {
   }
   log.Ev(static_cast<u64>(a.load()));
   log.Ev(static_cast<u64>(fails.load()));
+  // single-shot weak CAS: a spurious failure is reported, not retried (so the run can end right after one), and the
+  // seeded random_device of the fault layer: two instances, both are functions of the seed alone
+  for (int k = 0; k < 2 + static_cast<int>(v % 3); ++k) {
+    int e = a.load(std::memory_order_relaxed);
+    bool ok = a.compare_exchange_weak(e, e + 7);
+    log.Ev(ok ? 1U : 0U);
+  }
+  yaclib_std::random::random_device rd1;
+  log.Ev(static_cast<u64>(rd1()));
+  yaclib_std::random::random_device rd2;
+  log.Ev(static_cast<u64>(rd2()) ^ static_cast<u64>(rd1()));
+  int e = a.load(std::memory_order_relaxed);
+  log.Ev(a.compare_exchange_weak(e, e + 1) ? 1U : 0U);
 }
 
 // P4: yaclib_std locks and condition variable
